@@ -94,7 +94,10 @@ class A0:
 
 def analyse_map(fx, fn_path, group_ty, n_params, a0, rep, label):
     """Run the stage analysis on the generic body `fn_path` instantiated at `group_ty`."""
-    body = fx.body(fn_path)
+    # normal form: private helpers the map was factored into are inlined at MIR level (so that a reference to one of
+    # the map's inputs is still recognisable as such inside what used to be a helper)
+    import inline as INL
+    body = INL.inlined(fx, fn_path, lambda q: INL.is_private_helper(fx, q)) or fx.body(fn_path)
     violations = []
     events = []
 
@@ -197,6 +200,7 @@ def analyse_map(fx, fn_path, group_ty, n_params, a0, rep, label):
         return False
 
     I = exp.Interp(fx, 'none', extra_transfer=transfer, max_paths=32)
+    I.body_override = {fn_path: body}
     args = [('byref', ('input', i + 1)) for i in range(n_params)]
     try:
         res = I.run(fn_path, args)
